@@ -373,4 +373,90 @@ theorem delScan_spec (h : Nat) (hp0 : CHeap κ) :
       refine ⟨hnf, hsz, hlen, hl1, hz, fun e => ⟨fun he => ⟨hsub e he, ?_⟩, fun he => hsup e he.1 he.2⟩⟩
       obtain ⟨i, h1, hiL, rfl⟩ := he
       exact hdone i h1 (by omega) hiL
+
+/-- Floyd's heapify loop of `delete_events` (the argument counts down the loop index) -/
+theorem heapify_spec (o : StrictWeak cfg) :
+    ∀ idx (hp : CHeap κ), hp.fault = false →
+      (idx ≠ 0 → idx < hp.length ∧ hp.length < hp.mem.size) →
+      (∀ i, 1 ≤ i → i < hp.length → idx + 1 ≤ i / 2 →
+        cfg.lt (get cfg hp i).key (get cfg hp (i / 2)).key = false) →
+      (heapify cfg idx hp).fault = false ∧ (heapify cfg idx hp).length = hp.length ∧
+      (heapify cfg idx hp).mem.size = hp.mem.size ∧ get cfg (heapify cfg idx hp) 0 = get cfg hp 0 ∧
+      (∀ i, 1 ≤ i → i < hp.length → 1 ≤ i / 2 →
+        cfg.lt (get cfg (heapify cfg idx hp) i).key (get cfg (heapify cfg idx hp) (i / 2)).key = false) ∧
+      (∀ e, Mem cfg (heapify cfg idx hp) e ↔ Mem cfg hp e) := by
+  intro idx
+  induction idx with
+  | zero =>
+    intro hp hnf _ ho
+    exact ⟨hnf, rfl, rfl, rfl, fun i h1 hL h2 => ho i h1 hL (by omega), fun _ => Iff.rfl⟩
+  | succ idx ih =>
+    intro hp hnf hb ho
+    obtain ⟨hiL, hLs⟩ := hb (by omega)
+    have his : idx + 1 < hp.mem.size := by omega
+    simp only [heapify, chk_of_lt hp his]
+    have hg : ∀ j, get cfg (set hp hp.length (get cfg hp (idx + 1))) j
+        = if j = hp.length then get cfg hp (idx + 1) else get cfg hp j := fun j => get_set_lt hp j _ hLs
+    have D : DownInv cfg hp.length hp.mem.size (idx + 1) (get cfg hp (idx + 1)) (get cfg hp 0) (Mem cfg hp)
+        (set hp hp.length (get cfg hp (idx + 1))) (idx + 1) := by
+      refine ⟨by rw [fault_set _ _ hLs]; exact hnf, by simp, by simp, hLs, by omega, Nat.le_refl _, ?_, ?_, ?_, ?_, ?_, ?_, ?_⟩
+      · rw [hg]; simp
+      · rw [hg]; simp only [show (0:Nat) ≠ hp.length by omega, if_false]
+      · intro i h1 hL hne hne2 hlo
+        rw [hg, hg]; simp only [show i ≠ hp.length by omega, show i / 2 ≠ hp.length by omega, if_false]
+        exact ho i h1 hL (by omega)
+      · intro c _ _ h; omega
+      · intro _ h; omega
+      · intro _ e
+        constructor
+        · rintro (⟨i, h1, hL, hne, he⟩ | he)
+          · rw [hg] at he; simp only [show i ≠ hp.length by omega, if_false] at he
+            exact ⟨i, h1, hL, he⟩
+          · exact ⟨idx + 1, by omega, hiL, he.symm⟩
+        · rintro ⟨i, h1, hL, he⟩
+          by_cases hi : i = idx + 1
+          · right; rw [← he, hi]
+          · left; exact ⟨i, h1, hL, hi, by rw [hg]; simp only [show i ≠ hp.length by omega, if_false]; exact he⟩
+      · intro h; omega
+    obtain ⟨pos', hp', D'⟩ := bubbleDown_spec o D
+    obtain ⟨fnf, flen, fsz, fz, ford, fmem⟩ := D'.final hp'
+    generalize bubbleDown cfg (set hp hp.length (get cfg hp (idx + 1))) (idx + 1) = hp3 at *
+    obtain ⟨r1, r2, r3, r4, r5, r6⟩ := ih hp3 fnf (fun h => by rw [flen, fsz]; exact ⟨by omega, hLs⟩)
+      (fun i h1 hL h2 => by rw [flen] at hL; exact ford i h1 hL h2)
+    refine ⟨r1, by rw [r2, flen], by rw [r3, fsz], by rw [r4, fz], ?_, fun e => by rw [r6, fmem]⟩
+    intro i h1 hL h2
+    exact r5 i h1 (by rw [flen]; exact hL) h2
+
+/-- `delete_events`: the heap invariant is restored and exactly the entries of handler `h` are gone -/
+theorem deleteEvents_spec (o : StrictWeak cfg) {hp : CHeap κ} (h : Nat) (hI : Inv cfg hp) :
+    Inv cfg (deleteEvents cfg hp h) ∧ (deleteEvents cfg hp h).mem.size = hp.mem.size ∧
+    (∀ e, Mem cfg (deleteEvents cfg hp h) e ↔ Mem cfg hp e ∧ e.h ≠ h) := by
+  obtain ⟨⟨hnf, hw⟩, ho⟩ := hI
+  have hls : hp.length ≤ hp.mem.size := by rcases hw with h | h <;> omega
+  have S := delScan_spec (cfg := cfg) h hp hp.length hp 1 (by omega) (Nat.le_refl _) hnf rfl (Nat.le_refl _) hls
+    (fun h => h) rfl (fun i h1 h2 => by omega) (fun _ h => h) (fun _ h _ => h)
+  unfold deleteEvents
+  generalize delScan cfg h hp.length hp 1 = r at S
+  have hb : r.length / 2 ≠ 0 → r.length / 2 < r.length ∧ r.length < r.mem.size := by
+    intro h0
+    have := S.len; have := S.sz
+    rcases hw with h | h
+    · omega
+    · omega
+  obtain ⟨r1, r2, r3, r4, r5, r6⟩ := heapify_spec o (r.length / 2) r S.nf hb (fun i h1 hL h2 => by omega)
+  refine ⟨⟨⟨r1, ?_⟩, ?_⟩, by rw [r3, S.sz], fun e => by rw [r6, S.mem]⟩
+  · rcases hw with h | h
+    · left; exact ⟨by rw [r2]; have := S.len; omega, by rw [r3, S.sz]; exact h.2⟩
+    · right
+      exact ⟨by rw [r2]; exact S.len1 h.1, by rw [r2, r3, S.sz]; have := S.len; omega, by rw [r4, S.z]; exact h.2.2⟩
+  · intro i h1 hL
+    rw [r2] at hL
+    by_cases h2 : 1 ≤ i / 2
+    · exact r5 i h1 hL h2
+    · have h0 : i / 2 = 0 := by omega
+      have hb0 : (get cfg hp 0).key = cfg.bot := by
+        rcases hw with h | h
+        · have := S.len; omega
+        · exact h.2.2
+      rw [h0, r4, S.z, hb0]; exact o.bot_min _
 end JF.Heap
